@@ -412,6 +412,69 @@ Theorem vrf_challenge_binds_key_and_input :
 Proof. exact vrf_challenge_binds_input_l. Qed.
 Print Assumptions vrf_challenge_binds_key_and_input.
 
+(** a public key of small order (d*Y = 0, d | 8) admits a forged proof (Gamma = 0, needs no secret) that verify accepts for EVERY input as soon as d divides the challenge, with the same output for all inputs: key validity (checked by Deserial for PublicKey) is a genuine precondition *)
+Theorem vrf_small_order_key_forgeable :
+  forall (G : Type) (gzero : G) (gadd : G -> G -> G) (gopp : G -> G) (zmul : Z -> G -> G),
+  (forall a b c : G, gadd a (gadd b c) = gadd (gadd a b) c) ->
+  (forall a b : G, gadd a b = gadd b a) ->
+  (forall a : G, gadd gzero a = a) ->
+  (forall a : G, gadd a (gopp a) = gzero) ->
+  (forall (x : Z) (a b : G), zmul x (gadd a b) = gadd (zmul x a) (zmul x b)) ->
+  (forall (x y : Z) (a : G), zmul (x * y)%Z a = zmul x (zmul y a)) ->
+  forall (B : G) (Msg Out : Type) (h2c : G -> Msg -> option G) (hpoints : G * G * G * G -> Z)
+    (hout : G -> Out) (Y : G) (alpha : Msg) (H : G) (k d : Z),
+  h2c Y alpha = Some H ->
+  zmul d Y = gzero ->
+  (d | hpoints (H, gzero, zmul k B, zmul k H))%Z ->
+  vrf_verify G gadd gopp zmul B Msg h2c hpoints Y
+    (gzero, hpoints (H, gzero, zmul k B, zmul k H), k) alpha = true /\
+  vrf_to_hash G zmul Out hout (gzero, hpoints (H, gzero, zmul k B, zmul k H), k) = hout gzero.
+Proof. exact vrf_small_order_key_forgeable_l. Qed.
+Print Assumptions vrf_small_order_key_forgeable.
+
+(** for the identity key the forgery is unconditional *)
+Theorem vrf_identity_key_forgeable :
+  forall (G : Type) (gzero : G) (gadd : G -> G -> G) (gopp : G -> G) (zmul : Z -> G -> G),
+  (forall a b c : G, gadd a (gadd b c) = gadd (gadd a b) c) ->
+  (forall a b : G, gadd a b = gadd b a) ->
+  (forall a : G, gadd gzero a = a) ->
+  (forall a : G, gadd a (gopp a) = gzero) ->
+  (forall (x : Z) (a b : G), zmul x (gadd a b) = gadd (zmul x a) (zmul x b)) ->
+  (forall (x y : Z) (a : G), zmul (x * y)%Z a = zmul x (zmul y a)) ->
+  (forall a : G, zmul 1%Z a = a) ->
+  forall (B : G) (Msg Out : Type) (h2c : G -> Msg -> option G) (hpoints : G * G * G * G -> Z),
+  (G -> Out) ->
+  forall (alpha : Msg) (H : G) (k : Z),
+  h2c gzero alpha = Some H ->
+  vrf_verify G gadd gopp zmul B Msg h2c hpoints gzero
+    (gzero, hpoints (H, gzero, zmul k B, zmul k H), k) alpha = true.
+Proof. exact vrf_identity_key_forgeable_l. Qed.
+Print Assumptions vrf_identity_key_forgeable.
+
+(** for a small-order key the attested relation holds for Gamma = 0 *)
+Theorem vrf_small_order_key_dleq_trivial :
+  forall (G : Type) (gzero : G) (gadd : G -> G -> G) (gopp : G -> G) (zmul : Z -> G -> G),
+  (forall a b c : G, gadd a (gadd b c) = gadd (gadd a b) c) ->
+  (forall a b : G, gadd a b = gadd b a) ->
+  (forall a : G, gadd gzero a = a) ->
+  (forall a : G, gadd a (gopp a) = gzero) ->
+  (forall (x y : Z) (a : G), zmul (x + y)%Z a = gadd (zmul x a) (zmul y a)) ->
+  (forall (x : Z) (a b : G), zmul x (gadd a b) = gadd (zmul x a) (zmul x b)) ->
+  forall B Y H : G, zmul 8%Z Y = gzero -> dleq G zmul B Y H gzero.
+Proof. exact dleq_small_order_key_l. Qed.
+Print Assumptions vrf_small_order_key_dleq_trivial.
+
+(** POSITIVE, needs key validity 8*Y <> 0: no Gamma of small order satisfies the attested relation, so the output of a valid key is never the degenerate constant *)
+Theorem vrf_valid_key_excludes_small_order_gamma :
+  forall (G : Type) (gzero : G) (zmul : Z -> G -> G) (l : Z) (B : G),
+  (forall n : Z, zmul n B = gzero <-> (l | n)%Z) ->
+  forall Y H gamma : G,
+  zmul 8%Z Y <> gzero ->
+  (forall n : Z, zmul n H = gzero <-> (l | n)%Z) ->
+  dleq G zmul B Y H gamma -> zmul 8%Z gamma <> gzero.
+Proof. exact vrf_valid_key_excludes_small_order_gamma_l. Qed.
+Print Assumptions vrf_valid_key_excludes_small_order_gamma.
+
 (** ** Non-vacuity: the hypotheses are satisfiable, with concrete accepting and rejecting runs *)
 Example pairing_laws_satisfiable : plaws F5P.
 Proof. exact F5P_laws. Qed.
@@ -466,3 +529,12 @@ Proof.
           | (intros [] [] []; reflexivity) | (intros [] []; reflexivity) | (intros []; reflexivity) | reflexivity ].
 Qed.
 Print Assumptions vrf_nonvacuous.
+
+(** the hypotheses of the forgery theorem are satisfiable (identity key in the group of order 5) *)
+Example vrf_small_order_key_nonvacuous :
+  let h2c := fun (_ : five) (_ : unit) => Some V2 in
+  let hpoints := fun (_ : five * five * five * five) => 3%Z in
+  h2c V0 tt = Some V2 /\ g5_zmul 1 V0 = V0 /\ (1 | hpoints (V2, V0, g5_zmul 4 V1, g5_zmul 4 V2))%Z /\
+  vrf_verify five g5_add g5_opp g5_zmul V1 unit h2c hpoints V0 (V0, 3%Z, 4%Z) tt = true.
+Proof. cbv zeta. repeat split; try reflexivity. apply Z.divide_1_l. Qed.
+Print Assumptions vrf_small_order_key_nonvacuous.
